@@ -1,4 +1,61 @@
-(* C09 placeholder, replaced below *)
-From RV Require Import Model.Mapping.
-Theorem C09_placeholder : True. Proof. exact I. Qed.
-Eval cbv in "ASSUMPTIONS-OF C09_placeholder"%string. Print Assumptions C09_placeholder.
+(* C09  Constant keys cannot be changed by later layers.
+   Statements only; proofs in Proofs/MappingFacts.v (model: Mapping::insert_impl / merge) and
+   Proofs/DeepMergeFacts.v (specification Spec/DeepMerge.v, the oracle of the correspondence run). *)
+From RV Require Import Model.Mapping Model.Yaml Spec.DeepMerge Proofs.MappingFacts Proofs.DeepMergeFacts.
+
+(** A present constant key rejects every later write -- any value, any marker, forced or not --
+    with an error naming the key; the mapping is not modified (the result is an error). *)
+Theorem C09_constant_key_rejects_every_write :
+  forall m k v fc fo e,
+    m_find (stripped k) m = Some e -> e_const e = true ->
+    insert_impl m k v fc fo = Err (EConst (stripped k)).
+Proof. exact insert_const_rejects. Qed.
+Eval cbv in "ASSUMPTIONS-OF C09_constant_key_rejects_every_write"%string. Print Assumptions C09_constant_key_rejects_every_write.
+
+(** Merging a whole mapping: a constant key of the target is never silently altered, merged into
+    or dropped -- if the merge succeeds, its entry is literally unchanged and no entry of the
+    merged mapping wrote it. *)
+Theorem C09_merge_never_alters_constant :
+  forall o m m' k e,
+    mapping_merge m o = Ok m' -> m_find k m = Some e -> e_const e = true ->
+    m_find k m' = Some e /\ Forall (fun e' => stripped (e_key e') <> k) o.
+Proof. exact merge_preserves_const. Qed.
+Eval cbv in "ASSUMPTIONS-OF C09_merge_never_alters_constant"%string. Print Assumptions C09_merge_never_alters_constant.
+
+(** ... and if the merged mapping does write it (directly or delivered by a reference: a
+    referenced mapping is merged by the same function), the merge fails with a constant-key error. *)
+Theorem C09_merge_fails_on_constant :
+  forall o m k e,
+    m_find k m = Some e -> e_const e = true ->
+    Exists (fun e' => stripped (e_key e') = k) o ->
+    exists k', mapping_merge m o = Err (EConst k').
+Proof. exact merge_const_conflict. Qed.
+Eval cbv in "ASSUMPTIONS-OF C09_merge_fails_on_constant"%string. Print Assumptions C09_merge_fails_on_constant.
+
+(** Other keys are unaffected by a write to one key: entry (value and flags) and key order. *)
+Theorem C09_other_keys_unaffected :
+  forall m k v fc fo m' k2,
+    insert_impl m k v fc fo = Ok m' -> k2 <> stripped k -> m_find k2 m' = m_find k2 m.
+Proof. exact insert_other_key. Qed.
+Eval cbv in "ASSUMPTIONS-OF C09_other_keys_unaffected"%string. Print Assumptions C09_other_keys_unaffected.
+
+(** The specification used as oracle says the same: at one position, a key marked constant
+    rejects every later write. *)
+Theorem C09_spec_constant_rejects :
+  forall k p v slots s,
+    slot_find k slots = Some s -> sl_const s = true -> slot_write k p v slots = SErr (SConst k).
+Proof. exact spec_const_rejects. Qed.
+Eval cbv in "ASSUMPTIONS-OF C09_spec_constant_rejects"%string. Print Assumptions C09_spec_constant_rejects.
+
+(** Replacing the enclosing mapping as a whole lifts the protection: null at the enclosing
+    position discards the collected mapping with its constants. *)
+Theorem C09_spec_null_lifts : forall a, combine a YNull = SOk ANull.
+Proof. exact spec_null_replaces. Qed.
+Eval cbv in "ASSUMPTIONS-OF C09_spec_null_lifts"%string. Print Assumptions C09_spec_null_lifts.
+
+(** Non-vacuity: a mapping with a constant key; a write to it fails, a write to a sibling works. *)
+Example C09_nonvacuous :
+  let m := [mk_entry (VStr "k") (VNum (NInt 1)) true false; mk_entry (VStr "j") VNull false false] in
+  insert_impl m (VStr "~k") (VNum (NInt 2)) false false = Err (EConst (VStr "k")) /\
+  exists m', insert_impl m (VStr "j") (VNum (NInt 2)) false false = Ok m'.
+Proof. cbv. split; [reflexivity | eexists; reflexivity]. Qed.
